@@ -544,13 +544,19 @@ func (x *TopicsIndex) scanMessages(filter string, d int, n *particle, pks []pack
 	}
 
 	key, hasNext := isolateParticle(filter, d)
+	parentOfHash := false // the next level is a trailing '#', which also matches this level [MQTT-4.7.1.2]
+	if hasNext {
+		next, more := isolateParticle(filter, d+1)
+		parentOfHash = next == "#" && !more
+	}
+
 	if key == "+" || key == "#" || d == -1 {
 		for _, adjacent := range n.particles.getAll() {
 			if d == 0 && strings.HasPrefix(adjacent.key, "$") {
 				continue // top-level wildcards do not match topics beginning with $ [MQTT-4.7.2-1]
 			}
 
-			if !hasNext {
+			if !hasNext || parentOfHash {
 				if adjacent.retainPath != "" {
 					if pk, ok := x.Retained.Get(adjacent.retainPath); ok {
 						pks = append(pks, pk)
@@ -567,6 +573,12 @@ func (x *TopicsIndex) scanMessages(filter string, d int, n *particle, pks []pack
 
 	if particle := n.particles.get(key); particle != nil {
 		if hasNext {
+			if parentOfHash {
+				if pk, ok := x.Retained.Get(particle.retainPath); ok {
+					pks = append(pks, pk)
+				}
+			}
+
 			return x.scanMessages(filter, d+1, particle, pks)
 		}
 
